@@ -43,6 +43,7 @@ type c11World struct {
 	slot    uint32
 	energy  strings.Builder
 	emitted int
+	ticks   int
 	odd     bool // a round saw a non-dial failure / all-failed / signed-but-malformed reply
 }
 
@@ -389,6 +390,12 @@ func (w *c11World) round(t *rapid.T) {
 // tickEmits appends a reading for a new slot and requires the next granted
 // tick to emit exactly that reading.
 func (w *c11World) tickEmits() {
+	// after 30 ticks the client's loop starts a sync round of its own, which
+	// would run concurrently with the rounds the harness drives; restart before
+	if w.ticks >= 26 {
+		w.restart()
+	}
+	w.ticks++
 	w.slot++
 	g := int64(glow.GenesisTime)
 	w.energy.WriteString(fmt.Sprintf("%d,%d\n", g+300*int64(w.slot)+3, 1000+int(w.slot)))
@@ -442,6 +449,7 @@ func (w *c11World) restart() {
 		w.fail("client does not restart: %v", err)
 	}
 	w.c = c
+	w.ticks = 0
 	st := c.VerifState()
 	after := bannedSet(st.Servers)
 	for k := range before {
